@@ -64,7 +64,7 @@ where
         } else {
             let mut q = q.clone();
             for cond in q.queries_mut() {
-                for expr in cond.conds().clone().iter() {
+                for (i, expr) in cond.conds().clone().iter().enumerate() {
                     let mut result = HashSet::new();
                     for (k, v) in db.iter() {
                         let prop_value = v.get(expr.key()).ok_or(ActError::Store(format!(
@@ -78,7 +78,12 @@ where
                             result.insert(k.as_bytes().to_vec().into_boxed_slice());
                         }
                     }
-                    cond.calc(&result);
+                    if i == 0 {
+                        // the first expression initialises the result, which may be empty
+                        cond.result = result;
+                    } else {
+                        cond.calc(&result);
+                    }
                 }
             }
 
@@ -171,18 +176,10 @@ impl Cond {
     pub fn calc(&mut self, v: &HashSet<Box<[u8]>>) {
         match self.r#type {
             CondType::And => {
-                if self.result.is_empty() {
-                    self.result = v.clone();
-                } else {
-                    self.result = self.result.intersection(v).cloned().collect::<HashSet<_>>()
-                }
+                self.result = self.result.intersection(v).cloned().collect::<HashSet<_>>()
             }
             CondType::Or => {
-                if self.result.is_empty() {
-                    self.result = v.clone();
-                } else {
-                    self.result = self.result.union(v).cloned().collect::<HashSet<_>>()
-                }
+                self.result = self.result.union(v).cloned().collect::<HashSet<_>>()
             }
         }
     }
